@@ -1,10 +1,12 @@
 package main
 
 import (
+	"verifh/checks/c01"
 	"verifh/checks/c07"
 	"verifh/mc"
 )
 
 var registry = map[string]*mc.Check{
+	"C01": c01.Check,
 	"C07": c07.Check,
 }
